@@ -299,3 +299,63 @@ def _tombstone_definition(fn):
                 if st[2][1] == 'Ge' and 'address' in a.lower() and ('min_tombstone' in b or 'wrapping_add' in b or 'ones_sized' in b):
                     ge = True
     return lt and ge
+
+
+def run_D9(rep, g, prefixes=('write::cfi::',), floor=3):
+    """D9: an operand packed into the low bits of an opcode byte (`DW_CFA_advance_loc.0 | delta as u8`) must be proven,
+    by the guards dominating the site, to fit the bits the opcode leaves free; otherwise it silently changes the opcode."""
+    from .summaries import Summaries
+    rep.rule('D9', 'every `OPCODE | operand` whose OPCODE is a named DW_CFA_* constant with free low bits: the interval of the operand '
+             'at that point (dominating guards applied) lies inside the free bits')
+    S = Summaries(g)
+    n = 0
+    from collections import Counter
+    cnt = Counter()
+    for p in sorted(g.fns):
+        if not any(p.startswith(x) for x in prefixes) or '::tests::' in p:
+            continue
+        fn = g.fns[p]
+        ev = None
+        for b in sorted(fn.reach):
+            for st in fn.stmts(b):
+                if st[0] != 'a' or st[2][0] != 'bin' or st[2][1] != 'BitOr':
+                    continue
+                a, c = st[2][2], st[2][3]
+                for k_op, v_op in ((a, c), (c, a)):
+                    nm = None
+                    if k_op[0] == 'k' and isinstance(k_op[2], dict):
+                        nm = k_op[2].get('named')
+                    elif k_op[0] in ('c', 'm') and len(k_op[1]) == 1:
+                        # `DW_CFA_x.0` is a copy of the field of a promoted constant
+                        sd = fn.single_def(k_op[1][0])
+                        for _ in range(3):
+                            if sd is None or sd[1] == 'term' or sd[2][0] != 'use':
+                                break
+                            src = sd[2][1]
+                            if src[0] == 'k':
+                                if isinstance(src[2], dict):
+                                    nm = src[2].get('named')
+                                    k_op = src
+                                break
+                            sd = fn.single_def(src[1][0])
+                    if not nm or 'DW_CFA_' not in str(nm):
+                        continue
+                    kv = k_op[2].get('v')
+                    if not isinstance(kv, int) or kv == 0:
+                        continue
+                    free = (kv & -kv) - 1          # bits below the lowest set bit of the opcode
+                    if ev is None:
+                        ev = S.ev(fn)
+                    r = ev.val(v_op, b)
+                    n += 1
+                    base = '%s | %s' % (fn.path, str(nm).split('::')[-1])
+                    cnt[base] += 1
+                    key = base if cnt[base] == 1 else '%s #%d' % (base, cnt[base])
+                    if r is not None and r[0] >= 0 and r[1] <= free:
+                        rep.ok('D9', key, 'operand in %s fits the %d free low bits of %s' % (r, free.bit_length(), str(nm).split('::')[-1]), fn.loc(st[3]), why='interval under dominating guards')
+                    else:
+                        rep.bad('D9', key, 'operand `%s` packed into %s can be %s, outside the free bits [0, %d]: it would alter the opcode'
+                                % (fn.fmt_op(v_op, 4), str(nm).split('::')[-1], r, free), fn.loc(st[3]))
+                    break
+    rep.floor('D9', 'packed opcode operands', n, floor)
+    return n
